@@ -76,8 +76,18 @@ def work(cases):
                 got4 = sorted(a.four_neighbor_indices(case["y"], case["x"]))
                 got5 = sorted(other.four_neighbor_indices(case["y"], case["x"]))
                 got6 = sorted(((v.id - base) // w, (v.id - base) % w) for v in a.four_neighbors(case["y"], case["x"]))
-                rec["nbr_ok"] = (got1 == exp and got2 == exp and got3 == exp and got4 == exp and got5 == exp and got6 == exp)
-                rec["nbr_got"] = [got1, got2, got3, got4, got5, got6]
+                # the result is an array of the same element kind and can be used as an operand (pointwise)
+                nb2 = a.four_neighbors(case["y"], case["x"])
+                is_int = case["ops"][0]["kind"] in ("IA1", "IA2")
+                kind_ok = type(nb2).__name__ == ("IntArray1D" if is_int else "BoolArray1D")
+                try:
+                    r2 = (nb2 != 0) if is_int else (~nb2)
+                    use_ok = hasattr(r2, "shape") and list(r2.shape) == [len(exp)] and type(r2).__name__ == "BoolArray1D"
+                except Exception:  # noqa
+                    use_ok = False
+                rec["nbr_ok"] = (got1 == exp and got2 == exp and got3 == exp and got4 == exp and got5 == exp and got6 == exp
+                                 and kind_ok and use_ok)
+                rec["nbr_got"] = [got1, got2, got3, got4, got5, got6, {"result_type": type(nb2).__name__, "usable_as_operand": use_ok}]
                 out.append(rec)
                 continue
             if form in ("helper", "method"):
